@@ -13,7 +13,7 @@ import tempfile
 import numpy as np
 
 from ..base import Result
-from ..gen import dom_vec, make_labels, to_domain
+from ..gen import dom_vec, int_vec, make_labels, to_domain
 from ..metrics_table import NAMES, T
 from ..snap import build_model, fhex, fingerprint, forest_snapshot, safe_call, snapshot_diff
 
@@ -34,10 +34,14 @@ BUDGET = {
     "quick": {"cases": 20000, "seconds": 90, "shards": 8},
     "thorough": {"cases": 600000, "seconds": 900, "shards": 16},
 }
-REQUIRED_OBS = ["metric_eval_compared", "model_fit_compared", "model_predict_compared", "protected_cases",
+REQUIRED_OBS = ["first_use_values_compared", "wrap:subclass", "wrap:i64", "float32_evaluations", "metric_eval_compared", "model_fit_compared", "model_predict_compared", "protected_cases",
                 "fingerprints_compared", "history_on_exact_zero", "other_length_evaluations"]
 MIN_NONTRIVIAL = 300
 MODEL_METRICS = [n for n in NAMES if n != "statistic"]
+
+
+class _Sub(np.ndarray):
+    """A user-defined ndarray subclass: np.asarray(view) is a NEW object sharing the caller's memory."""
 
 
 def _plant_zeros(rng, A, frac=0.25):
@@ -64,7 +68,15 @@ def generate(rng, tier, idx):
         noise = [dom_vec(rng, kind, m).tolist() for m in (n + int(rng.integers(1, 9)), max(1, n - 1), n + 17)]
         for _ in range(int(rng.integers(1, 6))):
             ops.insert(int(rng.integers(0, len(ops))), [-1, int(rng.integers(0, len(noise)))])
-        return {"kind": "metric", "metric": name, "pool": [p.tolist() for p in pool], "ops": ops, "protect": protect, "noise": noise}
+        wrap = "plain"
+        r = rng.random()
+        if r < 0.12 and kind != "Q":
+            wrap = "i32" if rng.random() < 0.5 else "i64"           # integer-valued pool handed over as integer arrays
+            pool = [int_vec(rng, kind, n, bool(dec)).astype(float) for _ in range(k)]
+        elif r < 0.2:
+            wrap = "subclass"                                        # views of the caller's data typed as an ndarray subclass
+        return {"kind": "metric", "metric": name, "pool": [p.tolist() for p in pool], "ops": ops, "protect": protect, "noise": noise,
+                "wrap": wrap}
     model = ["supervised", "semi", "knn", "unsup"][(idx // 3) % 4]
     name = MODEL_METRICS[int(rng.integers(0, len(MODEL_METRICS)))] if rng.random() < 0.7 else "log_squared_euclidean"
     kind, dec = T[name][1], T[name][3]
@@ -79,6 +91,8 @@ def generate(rng, tier, idx):
         return A
 
     X = data(n)
+    if rng.random() < 0.06:
+        X[int(rng.integers(0, n)), int(rng.integers(0, d))] = float(rng.choice([np.nan, np.inf, -np.inf]))     # still the caller's data
     Y = make_labels(rng, X, "random", K=int(rng.integers(2, 4)))
     V = data(int(rng.integers(2, 7)))
     YV = rng.integers(0, int(Y.max()) + 1, size=len(V))
@@ -101,6 +115,8 @@ def _is_write_error(ex):
 
 def check(case):
     res = Result()
+    if "first_use_probe" in case:
+        return _first_use(res)
     if case["kind"] == "metric":
         return _check_metric(case, res)
     tmp = tempfile.mkdtemp(prefix="c07_")
@@ -116,7 +132,18 @@ def _check_metric(case, res):
     name = case["metric"]
     fn = DISTANCES[name]
     pool0 = case["pool"]
-    arrays = [np.array(v, dtype=float) for v in pool0]
+    wrap = case.get("wrap", "plain")
+    if wrap in ("i32", "i64"):
+        arrays = [np.array(v, dtype=float).astype(np.int32 if wrap == "i32" else np.int64) for v in pool0]
+    elif wrap == "subclass":
+        arrays = [np.array(v, dtype=float).view(_Sub) for v in pool0]
+    else:
+        arrays = [np.array(v, dtype=float) for v in pool0]
+    res.see("wrap:" + wrap)
+
+    def fresh(v):
+        a = np.array(v, dtype=float)
+        return a.astype(np.int32 if wrap == "i32" else np.int64) if wrap in ("i32", "i64") else a
     if case["protect"]:
         for a in arrays:
             a.flags.writeable = False
@@ -130,6 +157,10 @@ def _check_metric(case, res):
                 v = np.array(noise[j % len(noise)], dtype=float)
                 safe_call(fn, v, v[::-1].copy())
                 res.see("other_length_evaluations")
+                if j % 2 == 0:          # ... and in another floating precision (state keyed by dtype *kind* would leak into float64)
+                    v32 = v.astype(np.float32)
+                    safe_call(fn, v32, v32[::-1].copy())
+                    res.see("float32_evaluations")
             continue
         before = [fingerprint(a) for a in arrays]
         c = safe_call(fn, arrays[i], arrays[j])
@@ -148,7 +179,7 @@ def _check_metric(case, res):
                 return res
             res.see("aborted:" + type(c.exc).__name__)
             continue
-        ref = safe_call(fn, np.array(pool0[i], dtype=float), np.array(pool0[j], dtype=float))
+        ref = safe_call(fn, fresh(pool0[i]), fresh(pool0[j]))
         if ref.ok:
             res.see("metric_eval_compared")
             if not _same(c.value, ref.value):
@@ -294,3 +325,41 @@ def shrink(case):
         n = len(case["pool"][0])
         for t in range(n):
             yield {**case, "pool": [p[:t] + p[t + 1:] for p in case["pool"]]}
+
+
+def extra(tier, seed, shard=0, nshards=1):
+    """First-use order: in fresh interpreters every metric is evaluated on fixed float64 vectors (a) directly, (b) after a float32
+    evaluation, (c) after an integer evaluation.  The float64 values must be identical in the three processes."""
+    import json
+    import subprocess
+    import sys
+
+    if shard != 0:
+        return []
+    return [({"first_use_probe": True}, _first_use(Result()))]
+
+
+def _first_use(res):
+    import json
+    import subprocess
+    import sys
+
+    docs = {}
+    for order in ("f64", "f32-first", "int-first"):
+        try:
+            pr = subprocess.run([sys.executable, "-m", "opfmon.first_use", order], capture_output=True, text=True, timeout=600)
+            docs[order] = json.loads(pr.stdout)
+        except Exception as ex:  # noqa: BLE001 - could not run: this sub-claim is inconclusive, never an alarm
+            res.see("first_use_probe_failed_to_run")
+            res.note = repr(ex)[:200]
+            return res
+    for order in ("f32-first", "int-first"):
+        for name, v in docs["f64"].items():
+            res.see("first_use_values_compared")
+            if docs[order].get(name) != v:
+                res.violate("history", "C07/value-depends-on-history/first-use-order",
+                            f"{name}: float64 value {v} in a fresh process, but {docs[order].get(name)} when the process evaluated it {order} "
+                            f"(x=[0,2,1,0.25], y=[3,0,1.5,0.25])")
+                break
+    res.cell("first-use-order")
+    return res
